@@ -20,7 +20,13 @@ def canon(fn, n, depth=0):
     if k == 'DeclRefExpr':
         if nd.get('g') and 'cv' in nd:
             return ('c', int(nd['cv']))
-        return ('v', getattr(fn, '_pinned', {}).get(nd.get('d'), nd.get('n')))
+        name = getattr(fn, '_pinned', {}).get(nd.get('d'), nd.get('n'))
+        kl = getattr(fn, '_known_locals', None)
+        if kl is not None and name not in kl and nd.get('dk') == 'Var' and not nd.get('g'):
+            ini = temp_init(fn, nd.get('d'))
+            if ini is not None:
+                return canon(fn, ini, depth + 1)
+        return ('v', name)
     if k == 'MemberExpr':
         base = canon(fn, ks[0], depth + 1) if ks else ('this',)
         if base in (('this',), ('?',)) or (ks and fn.nodes[fn.strip(ks[0])]['k'] == 'CXXThisExpr'):
@@ -64,6 +70,56 @@ def canon(fn, n, depth=0):
     if k == 'InitListExpr':
         return ('list',) + tuple(canon(fn, x, depth + 1) for x in ks)
     return ('?' + k,)
+
+
+def temp_init(fn, d):
+    """A local the pinned tree does not have (an edit introduced it) that merely names a value: initialised once by a
+    call-free expression, never written again, and declared in a block in which none of the variables its initialiser reads
+    is written.  Such a local is transparent for shape rules: canon() replaces it by its initialiser.  Returns the
+    initialiser node or None."""
+    cache = fn.__dict__.setdefault('_temp_init', {})
+    if d in cache:
+        return cache[d]
+    cache[d] = None
+    from sa.paths import local_writes
+    vd = [i for i in fn.walk() if fn.nodes[i]['k'] == 'VarDecl' and fn.nodes[i].get('d') == d]
+    if len(vd) != 1:
+        return None
+    nd = fn.nodes[vd[0]]
+    ini = nd.get('init')
+    t = nd.get('t') or ''
+    if ini is None or ini < 0 or t.endswith('&') and not t.startswith('const ') or t.endswith('*'):
+        return None
+    if local_writes(fn, d):
+        return None
+    for j in fn.walk(ini):
+        k = fn.nodes[j]['k']
+        if k in ('CallExpr', 'CXXMemberCallExpr', 'LambdaExpr', 'CXXNewExpr') and not (fn.nodes[j].get('callee') or '').endswith(('::size', '::data', '::operator[]', '::at')):
+            return None
+        if k == 'CXXOperatorCallExpr' and fn.nodes[j].get('op') not in ('[]', '*', '->', '+', '-', '^', '|', '&', '<<', '>>', '==', '!=', '<', '>', '<=', '>='):
+            return None
+        if k in ('UnaryOperator',) and fn.nodes[j].get('op') in ('++', '--'):
+            return None
+        if k in ('BinaryOperator', 'CompoundAssignOperator') and (fn.nodes[j].get('op') or '').endswith('=') and fn.nodes[j]['op'] not in ('==', '!=', '<=', '>='):
+            return None
+    # the enclosing block
+    blk = None
+    for a in fn.ancestors(vd[0]):
+        if fn.nodes[a]['k'] == 'CompoundStmt':
+            blk = a
+            break
+    if blk is None:
+        return None
+    read = {fn.nodes[j].get('d') for j in fn.walk(ini) if fn.nodes[j]['k'] == 'DeclRefExpr' and fn.nodes[j].get('dk') in ('Var', 'ParmVar')}
+    for r_ in read:
+        for w in local_writes(fn, r_):
+            if fn.is_in(w, blk):
+                return None
+    # fields read by the initialiser: no call or assignment inside the block may change them -> only allow when no member is read
+    if any(fn.nodes[j]['k'] == 'MemberExpr' and fn.nodes[j].get('mk') == 'Field' and fn.nodes[fn.strip(fn.kids(j)[0])]['k'] == 'CXXThisExpr' for j in fn.walk(ini) if fn.kids(j)):
+        return None
+    cache[d] = ini
+    return ini
 
 
 def norm(t):
